@@ -1,4 +1,5 @@
 import Verif.Model.Line
+import Verif.Model.Dst
 import Verif.Driver.Util
 namespace Verif.Driver
 open Verif.Line
@@ -28,6 +29,15 @@ def handleLine (fs : List (List String)) : Option String :=
      | .metaL, some (k, v) => some ("K " ++ show_ k ++ " , " ++ show_ v)
      | .metaL, none => some "ERR"
      | _, _ => some "NOTMETA")
+  | [["dstrebuild"], toks] =>
+    -- the matrix read_dst returned (cells as the bit patterns of the doubles; 0 is 0.0) -> what read_qlc keeps
+    let m := splitLines toks
+    some ("R " ++ " / ".intercalate ((Verif.Dst.rebuild 0 m).map fun r => " ".intercalate (r.map toString)))
+  | [["dstwrite"], name, vals] =>
+    some ("L " ++ " ".intercalate ((Verif.Dst.writeLine (name.map nat!) (splitLines vals)).map toString))
+  | [["dstread"], line] =>
+    let r := Verif.Dst.readLine (line.map nat!)
+    some ("R " ++ " ".intercalate (r.1.map toString) ++ " , " ++ " / ".intercalate (r.2.map fun v => " ".intercalate (v.map toString)))
   | _ => none
 
 end Verif.Driver
